@@ -25,14 +25,28 @@ echo "demo on original: $DEMO_ORIG"
 echo "build with patch: ${BUILD:-ok}"
 echo "baseline with patch: $BASE/68 pass"
 echo "demo with patch: $DEMO_PATCH"
-# run the check against it
-git -C /repo apply $D/patch.diff || exit 2
-T0=$(date +%s)
-./check $PROP $TIER > $D/check_output.txt 2>&1
-RC=$?
-T1=$(date +%s)
-git -C /repo checkout -- .
-git -C /repo status --short | head -3
+# run the check against it: normally the patch is applied to /repo and undone afterwards; with
+# SEED_SCRATCH=1 (a long background run is reading /repo) the check runs against a scratch
+# worktree of /repo with the patch applied (VERIF_REPO)
+if [ "${SEED_SCRATCH:-0}" = "1" ]; then
+  R=/tmp/sr_$ID
+  git -C /repo worktree remove --force $R 2>/dev/null
+  git -C /repo worktree add -q --detach $R HEAD || exit 2
+  git -C $R apply $D/patch.diff || exit 2
+  T0=$(date +%s)
+  VERIF_REPO=$R ./check $PROP $TIER > $D/check_output.txt 2>&1
+  RC=$?
+  T1=$(date +%s)
+  git -C /repo worktree remove --force $R
+else
+  git -C /repo apply $D/patch.diff || exit 2
+  T0=$(date +%s)
+  ./check $PROP $TIER > $D/check_output.txt 2>&1
+  RC=$?
+  T1=$(date +%s)
+  git -C /repo checkout -- .
+  git -C /repo status --short | head -3
+fi
 echo "check $PROP $TIER rc=$RC in $((T1-T0))s"
 grep -E "^VIOLATION|^violated|^INCONCLUSIVE|^OK" $D/check_output.txt | head -8
 python3 - <<PY
